@@ -2856,6 +2856,12 @@ func (db *DB) importToLTX(ctx context.Context, r io.Reader) (ltx.Pos, error) {
 		return ltx.Pos{}, fmt.Errorf("read database header: %w", err)
 	}
 
+	// The page size of an existing database cannot be changed by an import as
+	// its pages could not be applied to the database file.
+	if db.pageSize != 0 && hdr.PageSize != db.pageSize {
+		return ltx.Pos{}, fmt.Errorf("import page size (%d) does not match database page size (%d)", hdr.PageSize, db.pageSize)
+	}
+
 	// Prepend header back onto original reader.
 	r = io.MultiReader(bytes.NewReader(data), r)
 
